@@ -1,9 +1,10 @@
+//go:build !noh2
+
 package verifharness
 
 import (
 	"encoding/json"
 	"fmt"
-	"sort"
 	"strconv"
 	"strings"
 	"time"
@@ -208,92 +209,12 @@ func (h2) NonTrivial(prop string, env *Env, st simrt.Stats) bool {
 
 // h2Model is the reference: an ideal pool of c servers with replace-on-tick semantics, driven in
 // simulated time by the tick instants and sizes and the per-start body durations.
-type h2ModelOut struct {
-	started  int
-	dropped  uint64
-	perTick  []uint64
-	stopDrop uint64
-	limitHit bool
-}
-
 func h2Model(c *H2Cfg, tickAt []int64, stopAt int64) h2ModelOut {
 	sizes := make([]int, len(c.Ticks))
 	for i, t := range c.Ticks {
 		sizes[i] = t.N
 	}
 	return poolModel(c.Concurrency, c.MaxIterations, sizes, c.BodyNs, tickAt, stopAt)
-}
-
-// poolModel: conc servers; tick i at tickAt[i] replaces whatever is pending by sizes[i] requests (the
-// replaced ones are dropped); a free server starts a pending request at once; the k-th started request
-// takes bodyNs[k mod len]; at stopAt (>= 0) pending requests are dropped; when a server would start request
-// number maxIter+1 everything pending is discarded silently and nothing starts any more.
-func poolModel(conc int, maxIter uint64, sizes []int, bodyNs []int64, tickAt []int64, stopAt int64) h2ModelOut {
-	var out h2ModelOut
-	out.perTick = make([]uint64, len(tickAt))
-	pending := 0
-	var busy []int64 // completion instants
-	idle := conc
-	limited := false
-	startOne := func(now int64) bool {
-		if maxIter > 0 && uint64(out.started) >= maxIter {
-			pending = 0
-			limited = true
-			out.limitHit = true
-			return false
-		}
-		d := int64(0)
-		if len(bodyNs) > 0 {
-			d = bodyNs[out.started%len(bodyNs)]
-		}
-		out.started++
-		pending--
-		idle--
-		busy = append(busy, now+d)
-		return true
-	}
-	drain := func(now int64) {
-		for pending > 0 && idle > 0 && !limited {
-			if !startOne(now) {
-				break
-			}
-		}
-	}
-	advance := func(until int64) {
-		for {
-			sort.Slice(busy, func(i, j int) bool { return busy[i] < busy[j] })
-			if len(busy) == 0 || busy[0] > until || (stopAt >= 0 && busy[0] > stopAt) {
-				return
-			}
-			t := busy[0]
-			busy = busy[1:]
-			idle++
-			drain(t)
-		}
-	}
-	for i, at := range tickAt {
-		if stopAt >= 0 && at > stopAt {
-			break
-		}
-		advance(at)
-		if limited {
-			break
-		}
-		if pending > 0 {
-			out.perTick[i] = uint64(pending)
-			out.dropped += uint64(pending)
-		}
-		pending = max(sizes[i], 0)
-		drain(at)
-	}
-	if stopAt >= 0 {
-		advance(stopAt)
-	}
-	if !limited && pending > 0 {
-		out.stopDrop = uint64(pending)
-		out.dropped += uint64(pending)
-	}
-	return out
 }
 
 func (h h2) Run(env *Env, cfg any) {
